@@ -104,6 +104,12 @@ def _impl(tier, seed, search):
             Esm = scipy.linalg.expm(r[0]); scs = max(1.0, float(np.max(np.abs(Esm))))
             for nm_, A_ in (('adjoint(trexp(S))', r[1]), ('Twist3.Ad', r[2]), ('SE3.Exp(S).Ad', r[3])):
                 L.close(f'exp(ad S)={nm_}', Esm, A_, 1e-7, scs, dict(S=Ssc), what=f'exp(ad S) differs from {nm_} for a screw with a small rotational part', sig='exp(ad S)=Ad(exp S):small-w')
+        # … and for screws whose rotational part exceeds a half turn (pi .. 3 pi), with non-zero pitch
+        wbig = inputs.unit_axis(g) * float(g.uniform(math.pi, 3 * math.pi)); Sbig = np.r_[g.normal(size=3), wbig]
+        ok, r = L.noraise('trexp(|w|>pi)', lambda: (b.trexp(Sbig), Twist3(Sbig).ad(), b.adjoint(b.trexp(Sbig))), dict(S=Sbig), 'trexp / adjoint of a screw with |w| > pi')
+        if ok:
+            Eb = scipy.linalg.expm(b.skewa(Sbig)); L.close('trexp(|w|>pi)=expm', r[0], Eb, 1e-7, max(1.0, geom.tmag(Eb)), dict(S=Sbig), what='trexp differs from the matrix exponential for a screw turning more than half a turn', sig='trexp:long')
+            Ea = scipy.linalg.expm(r[1]); L.close('exp(ad S)=Ad(exp S) (|w|>pi)', Ea, r[2], 1e-7, max(1.0, float(np.max(np.abs(Ea)))), dict(S=Sbig), sig='trexp:long')
         # the same identities for degenerate twists: pure translation (w = 0) and rotation through the origin (v = 0)
         for Sd in (np.r_[g.normal(size=3) * 10.0 ** g.uniform(-2, 2), 0, 0, 0], np.r_[0, 0, 0, inputs.unit_axis(g) * float(g.uniform(0.1, 3.0))]):
             ok, r = L.noraise('Twist3.Ad(degenerate)', lambda: (Twist3(Sd).ad(), Twist3(Sd).Ad(), Twist3(Sd).SE3().Ad()), dict(S=Sd), 'Twist3.ad / Ad on a degenerate twist')
